@@ -120,6 +120,22 @@ Section ExecArgs.
   Notation pk := ExecUnk.pk.
   Notation nst := (ExecUnk.nst T).
 
+  (* what the document is expected to show: a special sequence by its
+     tabulated text at the position of the sequence, everything else as it is *)
+  Definition rend (t : tok) : list tok :=
+    match tk t with
+    | KSpecial => match assoc (txt t) (t_special_values T) with
+                  | Some v => if inert_txt t then [mk KText (pos t) v (pfix t)] else [t]
+                  | None => [t] end
+    | _ => [t]
+    end.
+  Definition rtoks (l : list tok) : list tok := flat_map rend l.
+  Lemma rtoks_app a b : rtoks (a ++ b) = rtoks a ++ rtoks b.
+  Proof. apply flat_map_app. Qed.
+  (* the text a special sequence is replaced by *)
+  Definition sp_tok (t : tok) : Prop :=
+    tk t = KText /\ exists k, assoc k (t_special_values T) = Some (txt t).
+
   (* the tokens of visible text *)
   Definition tx (t : tok) : bool := match tk t with KText => true | _ => false end.
   Definition texts (l : list tok) : list tok := filter tx l.
@@ -173,9 +189,9 @@ Section ExecArgs.
       remove_pure_action_lines isp (rev rout ++ ts) = Ok out /\
       unknowns st' = fold_left add_unknown (unames (macros st) toks) (unknowns st) /\
       macros st' = macros st /\
-      nst (plains ts) = nst (plains toks) /\
-      texts ts = texts toks /\
-      Forall (fun t => etok T t \/ (pk t = false /\ txt t = [])) ts.
+      nst (plains ts) = nst (plains (rtoks toks)) /\
+      texts ts = texts (rtoks toks) /\
+      Forall (fun t => etok T t \/ (pk t = false /\ txt t = []) \/ sp_tok t) ts.
   Proof.
     induction fuel as [|k IH]; intros toks rout st r Hc H; [discriminate|].
     cbn [exec step] in H. inversion Hc as [E0|t b Ht Hb E0|m o a c l Hm Ho Hcl Hbal Ha Hl E0]; subst.
@@ -183,24 +199,53 @@ Section ExecArgs.
       destruct (remove_pure_action_lines isp (rev rout)) as [o| | |] eqn:Er; try discriminate.
       cbn [rbind] in H. inversion H; subst. exists st, [], o.
       rewrite app_nil_r. repeat split; [exact Er | constructor].
-    - inversion Ht as [? He|? Hk Hd Hm|? Hk Hi|? Hk Htx|? Hk Hbr]; subst.
+    - (* bookkeeping shared by the one-token cases: the token contributes
+         un to the names, shown to the expected tokens, pushes `push` *)
+      assert (Hone : forall push un st1,
+                rtoks [t] = rtoks [t] ->
+                (exists st' ts out,
+                   (st', ASeq out []) = r /\
+                   remove_pure_action_lines isp (rev rout ++ push ++ ts) = Ok out /\
+                   unknowns st' = fold_left add_unknown (unames (macros st) b) (unknowns st1) /\
+                   macros st' = macros st /\
+                   nst (plains ts) = nst (plains (rtoks b)) /\
+                   texts ts = texts (rtoks b) /\
+                   Forall (fun t => etok T t \/ (pk t = false /\ txt t = []) \/ sp_tok t) ts) ->
+                unknowns st1 = fold_left add_unknown un (unknowns st) ->
+                unames (macros st) [t] = un ->
+                plains push = plains (rtoks [t]) -> texts push = texts (rtoks [t]) ->
+                Forall (fun t => etok T t \/ (pk t = false /\ txt t = []) \/ sp_tok t) push ->
+                exists st' ts out,
+                  r = (st', ASeq out []) /\
+                  remove_pure_action_lines isp (rev rout ++ ts) = Ok out /\
+                  unknowns st' = fold_left add_unknown (unames (macros st) (t :: b)) (unknowns st) /\
+                  macros st' = macros st /\
+                  nst (plains ts) = nst (plains (rtoks (t :: b))) /\
+                  texts ts = texts (rtoks (t :: b)) /\
+                  Forall (fun t => etok T t \/ (pk t = false /\ txt t = []) \/ sp_tok t) ts).
+      { intros push un st1 _ (st' & ts & out & Er & Ep & Eu & Em & En & Et & Ef) U1 U2 P1 P2 Fp.
+        exists st', (push ++ ts), out. split; [symmetry; exact Er|]. split; [exact Ep|].
+        change (t :: b) with ([t] ++ b). rewrite unames_app, rtoks_app, U2, fold_left_app, <- U1.
+        split; [exact Eu|]. split; [exact Em|].
+        rewrite !plains_app, !texts_app, !nst_app, P1, P2, En, Et.
+        split; [reflexivity|]. split; [reflexivity|]. apply Forall_app. split; assumption. }
+      assert (Rother : tk t <> KSpecial -> rtoks [t] = [t]).
+      { intros Hn. unfold rtoks, rend. cbn [flat_map]. rewrite app_nil_r.
+        destruct (tk t); try reflexivity. contradiction. }
+      inversion Ht as [? He|? Hk Hd Hm|? Hk Hi|? Hk Htx|? Hk Hbr|? v Hk Hi Hv]; subst.
       + (* plain token *)
         rewrite (step_seq_etok T rd Htab) in H by exact He.
         destruct (IH _ _ _ _ Hb H) as (st' & ts & out & Er & Ep & Eu & Em & En & Et & Ef).
-        exists st', (t :: ts), out. split; [exact Er|].
-        split; [cbn [rev] in Ep; rewrite <- app_assoc in Ep; exact Ep|].
-        destruct He as [Hp Hkind].
-        assert (Hnm : unames (macros st) [t] = [] /\ pk t = true /\ is_action t = false
-                      /\ is_lang t = false).
-        { unfold unames, is_action, is_lang, ExecUnk.pk. cbn [flat_map].
-          destruct (tk t); try contradiction; repeat split. }
-        destruct Hnm as (N1 & N2 & N3 & N4).
-        split; [change (t :: b) with ([t] ++ b); rewrite unames_app, N1; exact Eu|].
-        split; [exact Em|]. split; [|split].
-        * unfold ExecUnk.plains in *. cbn [filter]. rewrite N2.
-          unfold ExecUnk.nst, RpalProofs.nst in *. cbn [flat_map]. rewrite En. reflexivity.
-        * unfold texts in *. cbn [filter]. rewrite Et. reflexivity.
-        * constructor; [left; split; assumption | exact Ef].
+        assert (Hns : tk t <> KSpecial) by (destruct He as [_ Hkind]; destruct (tk t); try contradiction; discriminate).
+        apply (Hone [t] [] st eq_refl).
+        * exists st', ts, out. repeat split; try assumption; [symmetry; exact Er|].
+          cbn [rev] in Ep. rewrite <- app_assoc in Ep. exact Ep.
+        * reflexivity.
+        * unfold unames. cbn [flat_map]. destruct He as [_ Hkind].
+          destruct (tk t); try contradiction; reflexivity.
+        * rewrite (Rother Hns). reflexivity.
+        * rewrite (Rother Hns). reflexivity.
+        * constructor; [left; exact He | constructor].
       + (* undeclared control word *)
         destruct (step_macro T rd (exec T rd k) k st t b None rout Hk Hd Hm)
           as (st1 & Es & Eu1 & Em1).
@@ -209,72 +254,98 @@ Section ExecArgs.
         assert (Hcl2 : bcl (macros st1) (ActionT (pos t) :: skip_space b)).
         { rewrite Em1. constructor; [apply u_action; [left|]; reflexivity | exact Hrest]. }
         destruct (IH _ _ _ _ Hcl2 H) as (st' & ts & out & Er & Ep & Eu & Em & En & Et & Ef).
-        exists st', ts, out. split; [exact Er|]. split; [exact Ep|].
         destruct (skipped_harmless T Hsp _ _ Hpre' Hpre) as [Hn0 Hp0].
         assert (Hun0 : unames (macros st) pre = []).
         { clear - Hpre. induction Hpre as [|x p Hx Hp IHp]; [reflexivity|].
           unfold unames in *. cbn [flat_map]. rewrite IHp, app_nil_r.
           unfold buf_is_space in Hx. destruct (tk x); try discriminate; reflexivity. }
+        assert (Hr0 : rtoks pre = pre).
+        { clear - Hpre. induction Hpre as [|x p Hx Hp IHp]; [reflexivity|].
+          unfold rtoks in *. cbn [flat_map]. rewrite IHp. unfold rend, buf_is_space in *.
+          destruct (tk x); try discriminate; reflexivity. }
         assert (Htx0 : texts pre = []).
         { clear - Hpre. induction Hpre as [|x p Hx Hp IHp]; [reflexivity|].
           unfold texts in *. cbn [filter]. rewrite IHp.
           unfold buf_is_space in Hx. unfold tx. destruct (tk x); try discriminate; reflexivity. }
+        assert (Hns : tk t <> KSpecial) by (rewrite Hk; discriminate).
+        exists st', ts, out. split; [exact Er|]. split; [exact Ep|].
         split; [|split; [congruence|split; [|split; [|exact Ef]]]].
         * rewrite Eu, Em1. change (ActionT (pos t) :: skip_space b)
             with ([ActionT (pos t)] ++ skip_space b).
           change (t :: b) with ([t] ++ b). rewrite !unames_app.
           rewrite (unames_ucls_unknown _ _ Hk Hm). cbn [app fold_left].
           rewrite Eu1. f_equal. rewrite Eb at 2. rewrite unames_app, Hun0. reflexivity.
-        * rewrite En. unfold ExecUnk.plains. cbn [filter].
-          assert (P1 : pk (ActionT (pos t)) = false) by reflexivity.
-          assert (P2 : pk t = false) by (unfold ExecUnk.pk; rewrite Hk; reflexivity).
-          rewrite P1, P2. rewrite Eb at 2. rewrite filter_app, nst_app.
-          unfold ExecUnk.plains in Hp0. rewrite Hp0. reflexivity.
-        * rewrite Et. unfold texts. cbn [filter].
-          assert (X1 : tx (ActionT (pos t)) = false) by reflexivity.
-          assert (X2 : tx t = false) by (unfold tx; rewrite Hk; reflexivity).
-          rewrite X1, X2. rewrite Eb at 2. rewrite filter_app. unfold texts in Htx0.
-          rewrite Htx0. reflexivity.
+        * rewrite En.
+          change (ActionT (pos t) :: skip_space b) with ([ActionT (pos t)] ++ skip_space b).
+          change (t :: b) with ([t] ++ b). rewrite !rtoks_app, (Rother Hns).
+          rewrite Eb at 2. rewrite rtoks_app, Hr0, !plains_app, !nst_app.
+          unfold ExecUnk.plains in Hp0 |- *. rewrite Hp0.
+          assert (P1 : filter pk (rtoks [ActionT (pos t)]) = []) by reflexivity.
+          assert (P2 : filter pk [t] = []) by (cbn [filter]; unfold ExecUnk.pk; rewrite Hk; reflexivity).
+          rewrite P1, P2. reflexivity.
+        * rewrite Et.
+          change (ActionT (pos t) :: skip_space b) with ([ActionT (pos t)] ++ skip_space b).
+          change (t :: b) with ([t] ++ b). rewrite !rtoks_app, (Rother Hns).
+          rewrite Eb at 2. rewrite rtoks_app, Hr0, !texts_app, Htx0.
+          assert (X1 : texts (rtoks [ActionT (pos t)]) = []) by reflexivity.
+          assert (X2 : texts [t] = []) by (unfold texts, tx; cbn [filter]; rewrite Hk; reflexivity).
+          rewrite X1, X2. reflexivity.
       + (* comment *)
         rewrite (step_comment T rd) in H by assumption.
         destruct (IH _ _ _ _ Hb H) as (st' & ts & out & Er & Ep & Eu & Em & En & Et & Ef).
-        exists st', ts, out. split; [exact Er|]. split; [exact Ep|].
-        assert (P2 : pk t = false) by (unfold ExecUnk.pk; rewrite Hk; reflexivity).
-        assert (P3 : unames (macros st) [t] = [])
-          by (unfold unames; cbn [flat_map]; rewrite Hk; reflexivity).
-        change (t :: b) with ([t] ++ b). rewrite unames_app, P3.
-        assert (X2 : tx t = false) by (unfold tx; rewrite Hk; reflexivity).
-        unfold ExecUnk.plains, texts in *. cbn [app filter]. rewrite P2, X2.
-        repeat split; assumption.
+        assert (Hns : tk t <> KSpecial) by (rewrite Hk; discriminate).
+        apply (Hone [] [] st eq_refl).
+        * exists st', ts, out. repeat split; try assumption. symmetry; exact Er.
+        * reflexivity.
+        * unfold unames. cbn [flat_map]. rewrite Hk. reflexivity.
+        * rewrite (Rother Hns). unfold ExecUnk.plains, ExecUnk.pk. cbn [filter]. rewrite Hk. reflexivity.
+        * rewrite (Rother Hns). unfold texts, tx. cbn [filter]. rewrite Hk. reflexivity.
+        * constructor.
       + (* action or void token *)
         rewrite (step_action T rd Htab) in H by assumption.
         destruct (IH _ _ _ _ Hb H) as (st' & ts & out & Er & Ep & Eu & Em & En & Et & Ef).
-        exists st', (t :: ts), out. split; [exact Er|].
-        split; [cbn [rev] in Ep; rewrite <- app_assoc in Ep; exact Ep|].
+        assert (Hns : tk t <> KSpecial) by (destruct Hk as [Hk|Hk]; rewrite Hk; discriminate).
         assert (P2 : pk t = false)
           by (unfold ExecUnk.pk; destruct Hk as [Hk|Hk]; rewrite Hk; reflexivity).
-        assert (P3 : unames (macros st) [t] = [])
-          by (unfold unames; cbn [flat_map]; destruct Hk as [Hk|Hk]; rewrite Hk; reflexivity).
-        change (t :: b) with ([t] ++ b). rewrite unames_app, P3.
-        assert (X2 : tx t = false)
-          by (unfold tx; destruct Hk as [Hk|Hk]; rewrite Hk; reflexivity).
-        unfold ExecUnk.plains, texts in *. cbn [app filter]. rewrite P2, X2.
-        repeat split; try assumption.
-        constructor; [right; split; [exact P2 | exact Htx] | exact Ef].
+        apply (Hone [t] [] st eq_refl).
+        * exists st', ts, out. repeat split; try assumption; [symmetry; exact Er|].
+          cbn [rev] in Ep. rewrite <- app_assoc in Ep. exact Ep.
+        * reflexivity.
+        * unfold unames. cbn [flat_map]. destruct Hk as [Hk|Hk]; rewrite Hk; reflexivity.
+        * rewrite (Rother Hns). reflexivity.
+        * rewrite (Rother Hns). reflexivity.
+        * constructor; [right; left; split; [exact P2 | exact Htx] | constructor].
       + (* single brace *)
         rewrite (step_brace T rd) in H by assumption.
         destruct (IH _ _ _ _ Hb H) as (st' & ts & out & Er & Ep & Eu & Em & En & Et & Ef).
-        exists st', (ActionT (pos t) :: ts), out. split; [exact Er|].
-        split; [cbn [rev] in Ep; rewrite <- app_assoc in Ep; exact Ep|].
-        assert (P1 : pk (ActionT (pos t)) = false) by reflexivity.
-        assert (P2 : pk t = false) by (unfold ExecUnk.pk; rewrite Hk; reflexivity).
-        assert (P3 : unames (macros st) [t] = [])
-          by (unfold unames; cbn [flat_map]; rewrite Hk; reflexivity).
-        change (t :: b) with ([t] ++ b). rewrite unames_app, P3.
-        assert (X1 : tx (ActionT (pos t)) = false) by reflexivity.
-        assert (X2 : tx t = false) by (unfold tx; rewrite Hk; reflexivity).
-        unfold ExecUnk.plains, texts in *. cbn [app filter]. rewrite P1, P2, X1, X2.
-        repeat split; try assumption. constructor; [right; split; reflexivity | exact Ef].
+        assert (Rb : rtoks [t] = [t]).
+        { unfold rtoks, rend. cbn [flat_map]. rewrite Hk.
+          assert (Hin : inert_txt t = false).
+          { unfold inert_txt, loop_strings, txt_is. destruct Hbr as [E|E]; rewrite E; reflexivity. }
+          rewrite Hin. destruct (assoc (txt t) (t_special_values T)); reflexivity. }
+        apply (Hone [ActionT (pos t)] [] st eq_refl).
+        * exists st', ts, out. repeat split; try assumption; [symmetry; exact Er|].
+          cbn [rev] in Ep. rewrite <- app_assoc in Ep. exact Ep.
+        * reflexivity.
+        * unfold unames. cbn [flat_map]. rewrite Hk. reflexivity.
+        * rewrite Rb. unfold ExecUnk.plains, ExecUnk.pk. cbn [filter tk ActionT mk]. rewrite Hk. reflexivity.
+        * rewrite Rb. unfold texts, tx. cbn [filter tk ActionT mk]. rewrite Hk. reflexivity.
+        * constructor; [right; left; split; reflexivity | constructor].
+      + (* special sequence: replaced by its tabulated text at its position *)
+        rewrite (step_special T rd _ _ _ _ _ _ _ v Hk Hi Hv) in H.
+        destruct (IH _ _ _ _ Hb H) as (st' & ts & out & Er & Ep & Eu & Em & En & Et & Ef).
+        assert (Rs : rtoks [t] = [mk KText (pos t) v (pfix t)]).
+        { unfold rtoks, rend. cbn [flat_map]. rewrite Hk, Hv, Hi. reflexivity. }
+        apply (Hone [ActionT (pos t); mk KText (pos t) v (pfix t)] [] st eq_refl).
+        * exists st', ts, out. repeat split; try assumption; [symmetry; exact Er|].
+          cbn [rev] in Ep. rewrite <- !app_assoc in Ep. exact Ep.
+        * reflexivity.
+        * unfold unames. cbn [flat_map]. rewrite Hk. reflexivity.
+        * rewrite Rs. reflexivity.
+        * rewrite Rs. reflexivity.
+        * constructor; [right; left; split; reflexivity|].
+          constructor; [|constructor]. right. right. split; [reflexivity|].
+          exists (txt t). exact Hv.
     - (* a pass-through macro with its braced argument *)
       destruct (step_pass (exec T rd k) k st m o a c l None rout Hm Ho Hcl Hbal)
         as (a' & x & y & Ea' & Hx & Hy & Es).
@@ -291,11 +362,25 @@ Section ExecArgs.
       destruct (IH _ _ _ _ Hnew H) as (st' & ts & out & Er & Ep & Eu & Em & En & Et & Ef).
       exists st', ts, out. split; [exact Er|]. split; [exact Ep|].
       destruct Hm as (Hk & _ & mac & a1 & Hma & _).
-      destruct Ho as [Ok_ _]. destruct Hcl as [Ck _].
-      assert (Ua' : unames (macros st) a' = unames (macros st) a /\ plains a' = plains a
-                    /\ texts a' = texts a).
+      destruct (lb_txt o Ho) as [O1 _]. destruct (rb_txt c Hcl) as [_ C2].
+      destruct Ho as [Ok_ Ot]. destruct Hcl as [Ck Ct].
+      assert (Ua' : unames (macros st) a' = unames (macros st) a
+                    /\ plains (rtoks a') = plains (rtoks a)
+                    /\ texts (rtoks a') = texts (rtoks a)).
       { rewrite Ea'. destruct a; repeat split; reflexivity. }
       destruct Ua' as (Ua' & Pa' & Ta').
+      assert (Ro : rtoks [m; o] = [m; o] /\ rtoks [c] = [c]).
+      { unfold rtoks, rend. cbn [flat_map]. rewrite Hk, Ok_, Ck.
+        assert (I1 : inert_txt o = false)
+          by (unfold inert_txt, loop_strings; cbn [forallb]; rewrite O1; cbn;
+              repeat rewrite Bool.andb_false_r; reflexivity).
+        assert (I2 : inert_txt c = false)
+          by (unfold inert_txt, loop_strings; cbn [forallb]; rewrite C2; cbn;
+              repeat rewrite Bool.andb_false_r; reflexivity).
+        rewrite I1, I2.
+        destruct (assoc (txt o) (t_special_values T)), (assoc (txt c) (t_special_values T));
+          split; reflexivity. }
+      destruct Ro as [Ro Rc].
       split; [|split; [exact Em|split; [|split; [|exact Ef]]]].
       + rewrite Eu. f_equal.
         change (ActionT (pos m) :: ActionT (pos x) :: a' ++ ActionT (pos y) :: l)
@@ -313,9 +398,9 @@ Section ExecArgs.
         change (ActionT (pos m) :: ActionT (pos x) :: a' ++ ActionT (pos y) :: l)
           with ([ActionT (pos m); ActionT (pos x)] ++ a' ++ [ActionT (pos y)] ++ l).
         change (m :: o :: a ++ c :: l) with ([m; o] ++ a ++ [c] ++ l).
-        rewrite !plains_app, Pa'.
-        assert (Q1 : plains [ActionT (pos m); ActionT (pos x)] = []) by reflexivity.
-        assert (Q2 : plains [ActionT (pos y)] = []) by reflexivity.
+        rewrite !rtoks_app, !plains_app, Pa', Ro, Rc.
+        assert (Q1 : plains (rtoks [ActionT (pos m); ActionT (pos x)]) = []) by reflexivity.
+        assert (Q2 : plains (rtoks [ActionT (pos y)]) = []) by reflexivity.
         assert (Q3 : plains [m; o] = []).
         { unfold ExecUnk.plains, ExecUnk.pk. cbn [filter]. rewrite Hk, Ok_. reflexivity. }
         assert (Q4 : plains [c] = []).
@@ -325,9 +410,9 @@ Section ExecArgs.
         change (ActionT (pos m) :: ActionT (pos x) :: a' ++ ActionT (pos y) :: l)
           with ([ActionT (pos m); ActionT (pos x)] ++ a' ++ [ActionT (pos y)] ++ l).
         change (m :: o :: a ++ c :: l) with ([m; o] ++ a ++ [c] ++ l).
-        rewrite !texts_app, Ta'.
-        assert (Q1 : texts [ActionT (pos m); ActionT (pos x)] = []) by reflexivity.
-        assert (Q2 : texts [ActionT (pos y)] = []) by reflexivity.
+        rewrite !rtoks_app, !texts_app, Ta', Ro, Rc.
+        assert (Q1 : texts (rtoks [ActionT (pos m); ActionT (pos x)]) = []) by reflexivity.
+        assert (Q2 : texts (rtoks [ActionT (pos y)]) = []) by reflexivity.
         assert (Q3 : texts [m; o] = []).
         { unfold texts, tx. cbn [filter]. rewrite Hk, Ok_. reflexivity. }
         assert (Q4 : texts [c] = []).
@@ -336,12 +421,13 @@ Section ExecArgs.
   Qed.
 
   (* the words stay -- also those inside arguments --, the markup vanishes,
-     the undeclared names are recorded once each in order of first use *)
+     special sequences show as their tabulated text, the undeclared names are
+     recorded once each in order of first use *)
   Theorem exec_args_text fuel toks st st' out :
     isp c_nl = true ->
     bcl (macros st) toks ->
     exec T rd fuel (TSeq toks None []) st = Ok (st', ASeq out []) ->
-    nst out = nst (plains toks) /\
+    nst out = nst (plains (rtoks toks)) /\
     unknowns st' = fold_left add_unknown (unames (macros st) toks) (unknowns st) /\
     macros st' = macros st.
   Proof.
@@ -351,36 +437,45 @@ Section ExecArgs.
     split; [|split; assumption].
     assert (HE0 : Forall (RpalProofs.E0) ts).
     { eapply Forall_impl; [|exact Ef]. intros a Ha. unfold RpalProofs.E0. intros HX.
-      destruct Ha as [[_ A]|(A & B)]; [|exact B].
-      exfalso. unfold is_action, is_lang in HX.
-      destruct (tk a); try contradiction; destruct HX; discriminate. }
+      destruct Ha as [[_ A]|[(A & B)|[A _]]]; [|exact B|].
+      - exfalso. unfold is_action, is_lang in HX.
+        destruct (tk a); try contradiction; destruct HX; discriminate.
+      - exfalso. unfold is_action, is_lang in HX. rewrite A in HX. destruct HX; discriminate. }
     pose proof (rpal_conserves isp Hnl ts o HE0 Ep) as Hcons.
     unfold ExecUnk.nst at 1. rewrite Hcons. rewrite <- En.
     unfold ExecUnk.nst, RpalProofs.nst, ExecUnk.plains. clear - Ef.
     induction Ef as [|t l Ht Hl IH]; [reflexivity|].
-    cbn [flat_map filter]. destruct Ht as [[_ A]|(A & B)].
+    cbn [flat_map filter]. destruct Ht as [[_ A]|[(A & B)|[A _]]].
     - assert (P : pk t = true) by (unfold ExecUnk.pk; destruct (tk t); try contradiction; reflexivity).
       rewrite P. cbn [flat_map]. rewrite IH. reflexivity.
     - rewrite A, B. cbn. exact IH.
+    - assert (P : pk t = true) by (unfold ExecUnk.pk; rewrite A; reflexivity).
+      rewrite P. cbn [flat_map]. rewrite IH. reflexivity.
   Qed.
 
-  (* C02 for the class: the text tokens of the document -- running text and
-     the text inside the arguments of pass-through macros, however deeply
-     nested -- leave the expander exactly as the scanner made them: same
-     character, same position, same order; nothing else of visible text
-     is in the output *)
+  (* no tabulated replacement text holds a line break *)
+  Definition values_one_line : bool :=
+    forallb (fun e => negb (has_nl (snd e))) (t_special_values T).
+  Hypothesis Hval : values_one_line = true.
+
+  (* C02 / C06 for the class: the visible one-line text tokens in the output
+     are exactly the text tokens of the document -- running text and the text
+     inside the arguments of pass-through macros, however deeply nested, each
+     with the character and the position the scanner gave it -- and the
+     tabulated replacements of the special sequences, each at the position
+     of its sequence; in order; nothing else *)
   Theorem exec_args_positions fuel toks st st' out :
     isp c_nl = true ->
     bcl (macros st) toks ->
     exec T rd fuel (TSeq toks None []) st = Ok (st', ASeq out []) ->
-    filter (solid isp) out = texts toks.
+    filter (solid isp) out = filter (solid isp) (texts (rtoks toks)).
   Proof.
     intros Hnl Hc H.
     destruct (exec_args fuel toks [] st _ Hc H) as (st2 & ts & o & Er & Ep & _ & _ & _ & Et & Ef).
     inversion Er; subst. cbn [rev app] in Ep. rewrite <- Et.
-    assert (Hcls : forall t, etok T t \/ (pk t = false /\ txt t = []) ->
-                   G isp t /\ solid isp t = tx t).
-    { intros t [[Hp Hk]|(A & B)].
+    assert (Hcls : forall t, etok T t \/ (pk t = false /\ txt t = []) \/ sp_tok t ->
+                   G isp t /\ (tx t = false -> solid isp t = false)).
+    { intros t [[Hp Hk]|[(A & B)|[A (key & Hv)]]].
       - unfold tx, G, RpalProofs.E0, is_action, is_lang, solid.
         destruct (tk t) eqn:Ek; try contradiction.
         + destruct Hk as (c & Etx & Hsc & _). rewrite Etx.
@@ -388,8 +483,8 @@ Section ExecArgs.
           assert (Hn : has_nl [c] = false).
           { unfold has_nl. cbn [existsb]. destruct (N.eqb c_nl c) eqn:E; [|reflexivity].
             apply N.eqb_eq in E. subst c. congruence. }
-          rewrite Hn. unfold blank_str. cbn [forallb]. rewrite Hc'. cbn.
-          split; [split; [discriminate | intros [X|X]; discriminate] | reflexivity].
+          rewrite Hn.
+          split; [split; [discriminate | intros [X|X]; discriminate] | discriminate].
         + destruct Hk as (c & r & Etx & _ & Hall).
           assert (Hb : blank_str isp (txt t) = true).
           { unfold blank_str. rewrite forallb_forall in *. intros a Ha. rewrite <- Hsp.
@@ -403,12 +498,24 @@ Section ExecArgs.
           rewrite Hb. rewrite Bool.andb_false_r.
           split; [split; [intros _; reflexivity | intros [X|X]; discriminate] | reflexivity].
       - split; [split; [rewrite B; discriminate | intros _; exact B]|].
-        rewrite (solid_nil isp t B). unfold tx. unfold ExecUnk.pk in A.
-        destruct (tk t); try reflexivity; discriminate. }
+        intros _. apply (solid_nil isp t B).
+      - assert (Hn : has_nl (txt t) = false).
+        { unfold values_one_line in Hval. rewrite forallb_forall in Hval.
+          assert (Hin : In (key, txt t) (t_special_values T)).
+          { clear - Hv. induction (t_special_values T) as [|[k' v'] l IHl]; [discriminate|].
+            simpl in Hv. destruct (str_eqb key k') eqn:E.
+            - inversion Hv; subst. apply str_eqb_eq in E. subst. left. reflexivity.
+            - right. apply IHl. exact Hv. }
+          specialize (Hval _ Hin). cbn [snd] in Hval. apply negb_true_iff in Hval. exact Hval. }
+        split; [split; [rewrite Hn; discriminate|]|].
+        + unfold RpalProofs.E0, is_action, is_lang. rewrite A. intros [X|X]; discriminate.
+        + unfold tx. rewrite A. discriminate. }
     assert (HG : Forall (G isp) ts).
     { eapply Forall_impl; [|exact Ef]. intros a Ha. apply Hcls. exact Ha. }
     rewrite (rpal_keeps_solid isp ts o HG Ep).
     unfold texts. clear - Ef Hcls. induction Ef as [|t l Ht Hl IH]; [reflexivity|].
-    cbn [filter]. rewrite (proj2 (Hcls t Ht)), IH. reflexivity.
+    cbn [filter]. destruct (tx t) eqn:E.
+    - cbn [filter]. rewrite IH. reflexivity.
+    - rewrite (proj2 (Hcls t Ht) E). exact IH.
   Qed.
 End ExecArgs.
